@@ -154,7 +154,7 @@ def attempt(fn):
     try:
         return fn()
     except BaseException as e:  # noqa: the class and text of the error is the behaviour
-        if isinstance(e, (KeyboardInterrupt, SystemExit)):
+        if isinstance(e, (KeyboardInterrupt, SystemExit)) or type(e).__name__ == 'CpuTimeout':
             raise
         return 'E:%s:%s' % (type(e).__name__, str(e)[:120])
 
@@ -212,12 +212,14 @@ def compile_outcome(paths, codec, adbc, ne, cache_dir):
         spec = asn1tools.compile_files(paths, codec, any_defined_by_choices=adbc,
                                        cache_dir=cache_dir, numeric_enums=ne)
     except BaseException as e:  # noqa
-        if isinstance(e, (KeyboardInterrupt, SystemExit)):
+        if isinstance(e, (KeyboardInterrupt, SystemExit)) or type(e).__name__ == 'CpuTimeout':
             raise
         return exc_outcome(e, sys.exc_info()[2]), None
     try:
         m = behaviour_map(spec)
     except BaseException as e:  # noqa
+        if type(e).__name__ == 'CpuTimeout':
+            raise
         return {'st': 'exc', 'cls': 'ProbeFailure:' + type(e).__name__, 'mro': [], 'msg': str(e)[:200], 'site': 'probe'}, None
     return {'st': 'ok', 'map': map_id(m)}, m
 
@@ -343,6 +345,9 @@ def child_body(paths, codec, adbc, ne, cache_dir, evpath, kill_marker, gate):
     try:
         try:
             resource.setrlimit(resource.RLIMIT_AS, (4 << 30, 4 << 30))
+            # a call that spins is cut by its CPU time (SIGXCPU), one that sleeps by the wall clock
+            # of the parent -- so that an overloaded machine does not look like a hang
+            resource.setrlimit(resource.RLIMIT_CPU, (CALL_TIMEOUT, CALL_TIMEOUT + 5))
             resource.setrlimit(resource.RLIMIT_CORE, (0, 0))
         except Exception:  # noqa
             pass
@@ -456,7 +461,7 @@ def run_child(paths, codec, adbc, ne, cache_dir, evpath, kill=None, trace_to=Non
             if r == pid:
                 st = s
                 break
-            if time.time() - t0 > CALL_TIMEOUT:
+            if time.time() - t0 > 10 * CALL_TIMEOUT:
                 os.kill(pid, signal.SIGKILL)
                 os.waitpid(pid, 0)
                 st = 'timeout'
@@ -508,11 +513,13 @@ class Replayer(object):
             self.recheck += 1
             if self.recheck % 8:
                 return self.fresh_memo[key]
-        signal.alarm(CALL_TIMEOUT)
+        signal.setitimer(signal.ITIMER_PROF, CALL_TIMEOUT)     # CPU time of this process
         try:
             out, m = compile_outcome(paths, codec, adbc, ne, None)
+        except CpuTimeout:
+            out, m = {'st': 'timeout'}, None
         finally:
-            signal.alarm(0)
+            signal.setitimer(signal.ITIMER_PROF, 0)
         if m is not None:
             self.maps.setdefault(out['map'], m)
         if key in self.fresh_memo and strip_msg(self.fresh_memo[key]) != strip_msg(out):
@@ -539,7 +546,7 @@ class Replayer(object):
         ev['wr'] = fold_sets(ev['wr'])
         marks = [e['m'] for e in evs if e.get('op') == 'mark']
         ev['last'] = marks[-1] if marks else '-'
-        if st == 'timeout':
+        if st == 'timeout' or (isinstance(st, int) and not res and (st & 0x7f) == signal.SIGXCPU):
             ev['cached'] = {'st': 'timeout'}
             ev['died'] = False
         elif res:
@@ -768,8 +775,12 @@ def parse_strace(path):
     return pts
 
 
+class CpuTimeout(BaseException):
+    pass
+
+
 def _alarm(signum, frame):
-    raise TimeoutError('uncached compile exceeded %d s' % CALL_TIMEOUT)
+    raise CpuTimeout()
 
 
 def main():
@@ -786,7 +797,7 @@ def main():
     root = a.root or os.path.join(os.path.dirname(os.path.abspath(a.out)), 'dirs')
     root = os.path.join(root, 'shard%d' % k)
     os.makedirs(root, exist_ok=True)
-    signal.signal(signal.SIGALRM, _alarm)
+    signal.signal(signal.SIGPROF, _alarm)
     rp = Replayer(root, a.seed * 1000 + k)
     skipped = 0
     with open(a.cases) as f, open(a.out, 'w') as out:
